@@ -254,6 +254,8 @@ type GstEvents struct {
 	// Gate, when set, is called (outside the log mutex) after a handler call was recorded and before it returns:
 	// a test may park the calling goroutine there (the adapter's hook is then "in the handler").
 	Gate func(call string, c GstChid, inv *GstInv)
+	// RefuseOpened: OnChannelOpened returns an error
+	RefuseOpened bool
 }
 
 func NewGstEvents(a *GstAttrib) *GstEvents { return &GstEvents{A: a, RespTid: 2000} }
@@ -317,8 +319,17 @@ func gstMsgKind(m datatransfer.Message) string {
 
 func (e *GstEvents) OnChannelOpened(chid datatransfer.ChannelID) error {
 	e.rec("OnChannelOpened", chid, "", 0)
+	e.mu.Lock()
+	refuse := e.RefuseOpened
+	e.mu.Unlock()
+	if refuse {
+		return datatransfer.ErrChannelNotFound // what the manager answers for a channel it does not (or no longer) track
+	}
 	return nil
 }
+
+// SetRefuseOpened makes OnChannelOpened fail from now on (the manager does so when the channel is unknown or has terminated).
+func (e *GstEvents) SetRefuseOpened(b bool) { e.mu.Lock(); e.RefuseOpened = b; e.mu.Unlock() }
 func (e *GstEvents) OnResponseReceived(chid datatransfer.ChannelID, msg datatransfer.Response) error {
 	return gstRet(e.rec("OnResponseReceived", chid, gstMsgKind(msg), int64(msg.TransferID())))
 }
